@@ -20,13 +20,14 @@ type c15Spec struct {
 	Variable bool   `json:"variable"`
 	ByWrite  bool   `json:"by_write"` // created by the first write instead of an explicit create
 	Write    string `json:"write"`    // none | mid | first (a row in the first interval of the year)
+	UTF8     bool   `json:"utf8,omitempty"` // names of NameLen BYTES made of 3-byte runes (fewer runes than bytes)
 }
 
 func init() {
 	mc.Def(mc.Check{
 		ID:    "C15",
 		Level: "exploration",
-		Rule: "A: column counts {1,2,3,255,256,400,1024} x name lengths {1,31,32,33,64,255,256} on 1Min and 1D (type i4); B: every type x every timeframe (2 columns, 4-byte names); " +
+		Rule: "A: column counts {1,2,3,255,256,400,1024} x name lengths {1,31,32,33,64,255,256} bytes on 1Min and 1D (type i4), plus names of {30,32,33,34,96} bytes made of 3-byte UTF-8 runes; B: every type x every timeframe (2 columns, 4-byte names); " +
 			"each x {fixed,variable} x created by explicit create / by the first write x later write {none, mid-year row, row in the first interval of the year}; then a restart on the same device. " +
 			"creation rejected, or the restarted server reports exactly the created names, types, timeframe and record type, accepts a write with that schema and rejects one with another. non-trivial = creation accepted",
 		Assume:   []string{"UTC", "BackgroundSync=false", "virtual clock in 2021: explicit create makes the 2021 file"},
@@ -48,13 +49,20 @@ func c15Enum(c *mc.Ctx, yield func(c15Spec)) {
 							continue
 						}
 						for _, tf := range []string{"1Min", "1D"} {
-							yield(c15Spec{nc, nl, "i4", tf, v, bw, wr})
+							yield(c15Spec{nc, nl, "i4", tf, v, bw, wr, false})
 						}
 					}
 				}
 				for _, ty := range allTypes {
 					for _, tf := range AllTF() {
-						yield(c15Spec{2, 4, ty, tf, v, bw, wr})
+						yield(c15Spec{2, 4, ty, tf, v, bw, wr, false})
+					}
+				}
+				if wr != "first" {
+					for _, nc := range []int{1, 3} {
+						for _, nl := range []int{30, 32, 33, 34, 96} {
+							yield(c15Spec{nc, nl, "i4", "1Min", v, bw, wr, true})
+						}
 					}
 				}
 			}
@@ -88,6 +96,14 @@ func c15Run(c *mc.Ctx, s c15Spec) {
 	}
 	key := "S/" + s.TF + "/A"
 	names := c28Names(s.NameLen, s.NCols)
+	if s.UTF8 {
+		for i, n := range names {
+			base := strings.TrimRight(n, "x")
+			k := (s.NameLen - len(base)) / 3
+			n = base + strings.Repeat("語", k)
+			names[i] = n + strings.Repeat("x", s.NameLen-len(n))
+		}
+	}
 	types := make([]string, s.NCols)
 	for i := range types {
 		types[i] = s.Typ
